@@ -317,7 +317,7 @@ def check_records(case):
     try:
         error = cc.classify_memory(connection, s, j)
         if error is not None:
-            cc.raise_classify_error(error)
+            cc.raise_classify_error(error, connection)
         step, labels, stretches, models = cc.model_of(connection, s, j)
         t = cc.tables(connection)
     finally:
